@@ -1326,6 +1326,20 @@ class Skel:
         return mk_seq(ev)
 
 
+def count_calls(node, names):
+    """number of call expressions in the AST below `node` whose callee is one of `names`"""
+    n = 0
+    if node.get("kind") == "CallExpr":
+        f = inner(node)[0] if inner(node) else {}
+        while f.get("kind") in ("ImplicitCastExpr", "ParenExpr", "CStyleCastExpr"):
+            f = inner(f)[-1]
+        if f.get("kind") == "DeclRefExpr" and f.get("referencedDecl", {}).get("name") in names:
+            n += 1
+    for c in inner(node):
+        n += count_calls(c, names)
+    return n
+
+
 def public_functions(cfile):
     src = open(os.path.join(REPO, cfile)).read()
     names = re.findall(r"^(?:RTRLIB_EXPORT\s+)?(?:inline\s+)?(?:const\s+)?(?:int|void|bool|struct\s+\w+\s*\*?)\s*\**\s*(\w+)\s*\([^;{]*\)\s*\{", src, re.M)
@@ -1485,6 +1499,24 @@ def emit_skeletons(w, problems):
         "(%s, %s)" % (coq_string(n), t) for n, t in segs))
     w("Definition lock_skeletons : list (string * list lk_event) :=\n"
       "  flat_map (fun f => map (fun x => (fst f, fst x)) (lk_paths (snd f))) lock_segments.\n")
+    # helpers that the skeletons treat as one read / write of the table (HELPER_RW): what they are assumed not to do
+    # is stated here from their bodies - the number of lock / unlock calls each one contains
+    helper_locks = []
+    for cfile in SKELETON_FILES:
+        sk = Skel(cfile)
+        for h in sorted(HELPER_RW):
+            if any(h == x for x, _ in helper_locks):
+                continue
+            try:
+                d = sk.fdef(h)
+            except Exception:  # noqa: BLE001
+                d = None
+            if d is None:
+                continue
+            helper_locks.append((h, count_calls(d, set(LOCK_CALLS))))
+    w("(* helpers counted as a single access in the programs above, with the number of lock calls in their own bodies *)")
+    w("Definition helper_lock_calls : list (string * nat) :=\n  [%s].\n" % "; ".join(
+        "(%s, %d)" % (coq_string(h), n) for h, n in helper_locks))
     w("(* functions that create or destroy the lock itself (pthread_rwlock_init / _destroy): callers must own the table exclusively *)")
     w("Definition lifecycle_functions : list string := [%s].\n" % "; ".join(coq_string(n) for n in lifecycle))
 
